@@ -25,12 +25,17 @@ fn tok_text(t: &Value) -> String {
               "id" => x.into(), "pv" => format!("?{x}"), "sl" => format!("${x}"), _ => panic!() }
 }
 
-fn slot_name(s: Slot) -> String { s.to_string()[1..].to_string() }
+/// The models are ASCII (SANY); their identifier character `U` stands for a multi-byte UTF-8
+/// character in the text given to the real parser, and is mapped back in the parsed values.
+const WIDE: &str = "\u{e9}";
+fn widen(s: &str) -> String { s.replace('U', WIDE) }
+fn narrow(s: &str) -> String { s.replace(WIDE, "U") }
+fn slot_name(s: Slot) -> String { narrow(&s.to_string()[1..]) }
 
 /// implementation Pattern -> the AST encoding of Parse.tla
 fn ast_of(p: &Pattern<P>) -> Value {
     match p {
-        Pattern::PVar(v) => json!({"k":"pvar","op":v,"sl":[],"ch":[]}),
+        Pattern::PVar(v) => json!({"k":"pvar","op":narrow(v),"sl":[],"ch":[]}),
         Pattern::Subst(b, x, t) => json!({"k":"subst","op":"","sl":[],"ch":[{"bd":[],"t":ast_of(b)},{"bd":[],"t":ast_of(x)},{"bd":[],"t":ast_of(t)}]}),
         Pattern::ENode(n, children) => {
             let syn = n.to_syntax();
@@ -40,7 +45,7 @@ fn ast_of(p: &Pattern<P>) -> Value {
             let mut ci = 0;
             for (i, e) in syn.iter().enumerate() {
                 match e {
-                    SyntaxElem::String(s) => { if i == 0 { op = s.clone(); } }
+                    SyntaxElem::String(s) => { if i == 0 { op = narrow(s); } }
                     SyntaxElem::Slot(s) => pending.push(slot_name(*s)),
                     SyntaxElem::AppliedId(_) => {
                         let t = if ci < children.len() { ast_of(&children[ci]) } else { json!({"k":"MISSING-CHILD"}) };
@@ -99,12 +104,13 @@ fn main() {
                 }
             }
             let mut f = |ix: &[usize]| {
-                let s: String = ix.iter().map(|i| texts[*i].as_str()).collect::<Vec<_>>().join(sep);
+                let key: String = ix.iter().map(|i| texts[*i].as_str()).collect::<Vec<_>>().join(sep);
+                let s: String = widen(&key);
                 c[0] += 1;
                 let mut bad = |what: &str, site: &str, detail: Value| {
                     if local.len() < 100 { local.push(json!({"kind":"finding","prop":"C18","what":what,"site":site,"detail":{"text":s,"info":detail}})); }
                 };
-                let exp = accepted.get(&s);
+                let exp = accepted.get(&key);
                 // --- Pattern::parse
                 match guard(|| Pattern::<P>::parse(&s)) {
                     Err(p) => bad("Pattern::parse panics", &p.site, json!(p.msg)),
